@@ -42,6 +42,7 @@ def run(tier):
         tag = "D=%d" % D
         ownrules.value_rules(rep, mod, res, tag)
         ownrules.viewflat_rule(rep, mod, res, tag, D, "R04.viewflat")
+        ownrules.viewflat_control(rep, mod, D, "R04.viewflat")
         ownrules.typestate_obligations(rep, mod, res, "alias", tag)
     tu = os.path.join(wd, "w04.cpp")
     with open(tu, "w") as fh:
